@@ -311,15 +311,17 @@ func (en *Engine) checkProperty(id, tier, verif, workdir string, t0 time.Time) i
 		}
 		grouped[f.Base] = append(grouped[f.Base], f)
 	}
-	var replayOutcome string
-	if len(order) > 0 {
-		replayOutcome = en.runReplayFamily(ps.Replay, id, verif)
-	}
+	outcomes := map[string]string{}
 	for _, base := range order {
 		fs := grouped[base]
 		violations++
 		exit = 1
-		path := en.writeReplay(en.outDir, id, base, fs, ps.Replay, replayOutcome)
+		fam := familyFor(base, ps.Replay)
+		if _, done := outcomes[fam]; !done {
+			outcomes[fam] = en.runReplayFamily(fam, id, verif)
+		}
+		replayOutcome := outcomes[fam]
+		path := en.writeReplay(en.outDir, id, base, fs, fam, replayOutcome)
 		suffix := ""
 		if !strings.HasPrefix(replayOutcome, "REPRODUCED") {
 			suffix = " no-failing-input-found"
